@@ -498,6 +498,7 @@ func genFixed2(t *tape.Tape, o GenOpts) *World {
 	ieol := innerEOL(t, eol)
 	m := Model{Fields: fn, IntField: fn[sh.IntIdx]}
 	var envs []interface{}
+	hfByIndex := false
 	globalHdr := layout >= 2 && t.Bool("fl2.global")
 	if globalHdr {
 		envs = append(envs, D{"name": "HDR", "header": "^HDR", "min": 1, "max": 1,
@@ -536,6 +537,39 @@ func genFixed2(t *tape.Tape, o GenOpts) *World {
 			return fixedLine("A", a, width) + ieol + fixedLine("B", b, width)
 		}
 	case 2:
+		hfByIndex = !o.OwnDataOnly && !sh.NumericFilter && t.Bool("fl2.hf.lineindex")
+		if hfByIndex {
+			// columns found by line_index in an envelope whose number of lines depends on the data: the
+			// even fields on the second line, the odd ones on the third; a record may come without its
+			// third line, or without both (then the footer is the line a line_index points at, or there
+			// is no such line at all)
+			cols := fixedCols(fn, 5, width, func(i int, d D) {
+				d["line_index"] = 2 + i%2
+				d["start_pos"] = 5 + (i/2)*width
+			})
+			envs = append(envs, D{"name": "R", "header": "^V010", "footer": "^V999", "is_target": true, "columns": cols})
+			w.Render = func(r LRec) string {
+				var a, b []string
+				for i, v := range r.Vals {
+					if i%2 == 0 {
+						a = append(a, v)
+					} else {
+						b = append(b, v)
+					}
+				}
+				out := "V010"
+				if r.Short < 2 {
+					out += ieol + fixedLine("V020", a, width)
+				}
+				if r.Short < 1 {
+					out += ieol + fixedLine("V030", b, width)
+				}
+				return out + ieol + "V999"
+			}
+			w.SetTag("fl2.line-index-in-header-footer-envelope", "1")
+			w.SetTag("envelope", "header_footer")
+			break
+		}
 		cols := fixedCols(fn, 5, width, func(i int, d D) { d["line_pattern"] = "^V020" })
 		envs = append(envs, D{"name": "R", "header": "^V010", "footer": "^V999", "is_target": true, "columns": cols})
 		w.Render = func(r LRec) string {
@@ -587,6 +621,14 @@ func genFixed2(t *tape.Tape, o GenOpts) *World {
 		w.Suffix += eol
 	}
 	drawRecs(t, w, sh, o)
+	if hfByIndex {
+		for i := range w.LRecs {
+			if w.LRecs[i].Vals[0] != sh.SkipValue && t.Chance("fl2.hf.short", 1, 3) {
+				w.LRecs[i].Short = 1 + t.Intn("fl2.hf.short.n", 2)
+				w.RecTexts[i] = w.Render(w.LRecs[i])
+			}
+		}
+	}
 	if trailer && len(w.LRecs) == 0 {
 		w.Suffix = strings.TrimPrefix(w.Suffix, eol)
 	}
